@@ -23,6 +23,7 @@ type Ctx struct {
 	Arg    string
 	TmpDir string
 	R      *lab.Result
+	Out    string
 	J      *lab.Journal
 }
 
@@ -78,7 +79,7 @@ func main() {
 		*tmp = d
 		defer os.RemoveAll(d)
 	}
-	c := &Ctx{Tier: *tier, Seed: *seed, Part: *part, NParts: *nparts, Arg: *arg, TmpDir: *tmp,
+	c := &Ctx{Tier: *tier, Seed: *seed, Part: *part, NParts: *nparts, Arg: *arg, TmpDir: *tmp, Out: *out,
 		R: lab.NewResult(name, fmt.Sprintf("%d/%d:%s", *part, *nparts, *arg), *seed), J: lab.OpenJournal(*journal)}
 	t0 := time.Now()
 	f(c)
